@@ -156,6 +156,25 @@ func genC15(t *rapid.T) *FileCase {
 		cfg.MaxTops = 7
 		c = genFileCase(t, cfg, 0)
 	}
+	// ':' map-script entries and table rows that name a script of this file (written before or after the
+	// mapscripts statement, with any modifier): being referred to does not change a script's scope
+	if scs := c.File.Scripts(); len(scs) > 0 && rapid.IntRange(0, 2).Draw(t, "refscripts") == 0 {
+		for _, tp := range c.File.Tops {
+			if tp.K != "mapscripts" {
+				continue
+			}
+			for _, e := range tp.Map.Entries {
+				if e.Kind == "plain" && rapid.Bool().Draw(t, "refentry") {
+					e.Label = scs[rapid.IntRange(0, len(scs)-1).Draw(t, "refwhich")].Name
+				}
+				for _, r := range e.Rows {
+					if r.Body == nil && rapid.Bool().Draw(t, "refrow") {
+						r.Label = scs[rapid.IntRange(0, len(scs)-1).Draw(t, "refwhich")].Name
+					}
+				}
+			}
+		}
+	}
 	// names of generated shape that clash with nothing: the documented scopes apply to them like to any other name
 	n := rapid.IntRange(0, 2).Draw(t, "shapednames")
 	for i := 0; i < n; i++ {
